@@ -72,8 +72,38 @@ fn run_case(syms: &[Sym], wset: usize, vlen: usize, rep: &Report, st: &Stats) {
     } else {
         windows
     };
-    let got = catch(|| MlpgAdjust::new(1.0, 0.5, ModelStream { vector_length: vlen, stream: sp, gv: None, windows: &windows }).create(&durations));
+    let adjust = match catch(|| MlpgAdjust::new(1.0, 0.5, ModelStream { vector_length: vlen, stream: sp, gv: None, windows: &windows })) {
+        Ok(a) => a,
+        Err(p) => {
+            rep.violation(format!("panic@{}", site_of(&p)), p, json!({"window_set": wset}));
+            return;
+        }
+    };
+    let got = catch(|| adjust.create(&durations));
     rep.eval(1);
+    // the same object asked again with other durations (reversed, and one frame more on the first state): what an
+    // earlier call did must not matter
+    if (syms.len() + wset + syms[0].dur) % 5 == 0 {
+        let mut d2: Vec<usize> = durations.iter().rev().cloned().collect();
+        d2[0] += 1;
+        let want2 = mlpg_reference(&states, &d2, &wins, vlen);
+        rep.cmp(1);
+        match catch(|| adjust.create(&d2)) {
+            Err(p) => {
+                rep.violation(format!("panic@{}", site_of(&p)), format!("second create() on the same MlpgAdjust: {}", p), json!({"window_set": wset, "durations_first": durations, "durations_second": d2}));
+                return;
+            }
+            Ok(g2) => {
+                let scale = want2.iter().flatten().filter(|x| **x != NODATA).fold(1.0f64, |a, b| a.max(b.abs()));
+                let ok = g2.len() == want2.len() && g2.iter().zip(&want2).all(|(a, b)| a.iter().zip(b).all(|(x, y)| if *y == NODATA { x.to_bits() == NODATA.to_bits() } else { (x - y).abs() <= 1e-9 * scale }));
+                if !ok {
+                    rep.violation("second-create", "a second create() on the same MlpgAdjust with other durations is not the ML solution for those durations (state left over from the first call)", json!({"window_set": wset, "windows": wins, "vector_length": vlen, "durations_first": durations, "durations_second": d2,
+                        "states": states.iter().map(|(p, v)| json!({"params_mean_var": p, "msd": if *v {0.9} else {0.1}})).collect::<Vec<_>>()}));
+                    return;
+                }
+            }
+        }
+    }
     let replay = || {
         json!({"window_set": wset, "windows": wins, "windows_through_serde_round_trip": via_serde, "vector_length": vlen, "threshold": 0.5,
             "states": states.iter().zip(&durations).map(|((p, v), d)| json!({"params_mean_var": p, "msd": if *v {0.9} else {0.1}, "duration": d})).collect::<Vec<_>>()})
@@ -177,7 +207,7 @@ fn alphabet(durs: &[usize]) -> Vec<Sym> {
 
 pub fn run(tier: Tier) -> i32 {
     let rep = Report::new("C05", tier, "model_checking");
-    rep.set_rule("SCOPE: full product over 1..N states of per-state symbols (mean in 3 values) x (variance in {0.05,1,3}) x (duration in {1,2,3}) x {voiced, unvoiced}, for each of 8 window sets {static; +delta; +delta+delta-delta; width-5; width-3 delta with width-5 delta-delta; width-5 delta with width-3 delta-delta; even lengths 2 and 4; backward difference only} and vector lengths {1,2}, on the real MlpgAdjust::create (every fourth case with a window set that went through its Serialize/Deserialize round trip); oracle = dense Gaussian elimination of the definition, rel. tolerance 1e-9; distinct = distinct (state sequence, window set, vector length); non-trivial = every case (each is compared frame by frame)");
+    rep.set_rule("SCOPE: full product over 1..N states of per-state symbols (mean in 3 values) x (variance in {0.05,1,3}) x (duration in {1,2,3}) x {voiced, unvoiced}, for each of 8 window sets {static; +delta; +delta+delta-delta; width-5; width-3 delta with width-5 delta-delta; width-5 delta with width-3 delta-delta; even lengths 2 and 4; backward difference only} and vector lengths {1,2}, on the real MlpgAdjust::create (every fourth case with a window set that went through its Serialize/Deserialize round trip; every fifth case followed by a second create() on the same object with other durations); oracle = dense Gaussian elimination of the definition, rel. tolerance 1e-9; distinct = distinct (state sequence, window set, vector length); non-trivial = every case (each is compared frame by frame)");
     rep.assume("variances within [0.05,3]; state counts/durations beyond the stated bound are covered only by the periodic families of the thorough tier");
     let st = Stats { island1: Default::default(), island2: Default::default(), all_unvoiced: Default::default(), ends_unvoiced: Default::default(), short_island_wide: Default::default(), worst: std::sync::Mutex::new(0.0) };
     let full = alphabet(&[1, 2, 3]);
